@@ -26,6 +26,16 @@ impl EnvAtomicU64 {
                 final(self).loads == old(self).loads,
     { unimplemented!() }
 }
+impl EnvAtomicU64 {
+    #[verifier::external_body]
+    pub fn compare_exchange_weak(&mut self, cur: u64, new: u64, o1: Ordering, o2: Ordering) -> (r: Result<u64, u64>)
+        ensures r is Ok ==> final(self).committed@ == old(self).committed@.push((cur, new)), r is Err ==> final(self).committed == old(self).committed, final(self).loads == old(self).loads,
+    { unimplemented!() }
+    /// PROTOCOL VIOLATION: a blind write overwrites whatever another recorder committed in between (a lost update)
+    #[verifier::external_body] pub fn store(&mut self, v: u64, o: Ordering) requires false { }
+    #[verifier::external_body] pub fn swap(&mut self, v: u64, o: Ordering) -> u64 requires false { unimplemented!() }
+    #[verifier::external_body] pub fn fetch_add(&mut self, v: u64, o: Ordering) -> u64 requires false { unimplemented!() }
+}
 pub struct AtomicIncrementalAverage64 { pub joined: EnvAtomicU64 }
 impl AtomicIncrementalAverage64 {
     /// the real split_joined / join_split are decided by back end K (mutually inverse on every word); here they are uninterpreted
@@ -44,7 +54,7 @@ FNS = [
            sig="pub fn atomic_compute<Fc: Fn(u32, f32) -> (u32, f32)>(&mut self, load_ordering: Ordering, store_ordering: Ordering, computation: Fc)",
            sig_anchor=r"fn atomic_compute\(&self, load_ordering: Ordering, store_ordering: Ordering, computation: impl Fn\(u32, f32\) -> \(u32, f32\)\)",
            rules=[Rule("R6-unsafe-block", r"\bunsafe\s*\{", "{", count=1, note="unsafe block marker dropped (union field access)"),
-                  Rule("R8-break", r"Ok\(_\) => break,", "Ok(_) => return,", count=1, note="`break` of the tail loop -> `return`")],
+                  Rule("R8-break", r"Ok\(_\) => break,", "Ok(_) => return,", min=0, note="`break` of the tail loop -> `return`")],
            requires="forall|c: u32, a: f32| computation.requires((c, a)), forall|c: u32, a: f32, r: (u32, f32)| computation.ensures((c, a), r) ==> r == spec_f(c, a)",
            ensures="final(self).joined.committed@.len() == old(self).joined.committed@.len() + 1,"
                    "final(self).joined.committed@.drop_last() =~= old(self).joined.committed@,"
